@@ -14,6 +14,7 @@ import Driver.Voc
 import Driver.Pipe
 import Driver.Eng
 import Driver.Lab
+import Driver.Hts
 
 open Drv
 
@@ -52,13 +53,48 @@ def runLine (idx : Nat) (line : String) : String :=
       | .error e => s!"case {idx} op={op} error={sanitize e}"
   else ""
 
-partial def loop (h : IO.FS.Stream) (idx : Nat) : IO Unit := do
+def readVoice (path : String) : IO (Jb.Hts.Res Jb.Hts.ParsedVoice) := do
+  let bytes ← IO.FS.readBinFile path
+  pure (Jb.Hts.parseVoice true (bytes.toList.map (·.toNat)))
+
+/-- ops that need the voice file: the driver reads and parses it (cached per path) -/
+def runHtsLine (cache : IO.Ref (Option (String × Jb.Hts.Res Jb.Hts.ParsedVoice))) (idx : Nat) (toks : Array String) : IO String := do
+  let op := toks[0]!
+  let path := toks.getD 1 ""
+  if op == "htsf" then
+    let pv ← if path == "-" then pure none else (do
+      let ok ← System.FilePath.pathExists path
+      if ok then some <$> readVoice path else pure none)
+    match (Drv.HtsOp.runFault pv).run (toks, 2) with
+    | .ok (v, _) => return v.render idx op
+    | .error e => return s!"case {idx} op={op} error={sanitize e}"
+  let cur ← cache.get
+  let pv ← match cur with
+    | some (p, v) => if p == path then pure v else do
+        let v ← readVoice path
+        cache.set (some (path, v)); pure v
+    | none => do
+        let v ← readVoice path
+        cache.set (some (path, v)); pure v
+  match pv with
+  | .ok voice =>
+    let p : P Verdict := if op == "hts" then Drv.HtsOp.runHts voice else Drv.HtsOp.runMeta voice
+    match p.run (toks, 2) with
+    | .ok (v, _) => pure (v.render idx op)
+    | .error e => pure s!"case {idx} op={op} error={sanitize e}"
+  | .err e => pure (({ corr := some s!"the Lean reader rejects the file: {e}", oracle := none } : Verdict).render idx op)
+  | .panic s => pure (({ corr := some s!"the Lean reader reports a panic site: {s}", oracle := none } : Verdict).render idx op)
+
+partial def loop (cache : IO.Ref (Option (String × Jb.Hts.Res Jb.Hts.ParsedVoice))) (h : IO.FS.Stream) (idx : Nat) : IO Unit := do
   let line ← h.getLine
   if line.isEmpty then return ()
   let l := line.trimAscii.toString
-  let out := runLine idx l
+  let toks := (l.splitOn " ").filter (· ≠ "") |>.toArray
+  let out ← if toks.size > 0 && (toks[0]! == "hts" || toks[0]! == "htsmeta" || toks[0]! == "htsf") then runHtsLine cache idx toks
+            else pure (runLine idx l)
   if !out.isEmpty then IO.println out
-  loop h (if out.isEmpty then idx else idx + 1)
+  loop cache h (if out.isEmpty then idx else idx + 1)
 
 def main : IO Unit := do
-  loop (← IO.getStdin) 0
+  let cache ← IO.mkRef none
+  loop cache (← IO.getStdin) 0
